@@ -136,6 +136,9 @@ func genCfg(rnd *tr.Rand, focus string) *caseCfg {
 			c.inject = []inject{{name: "wr", index: 2, kind: "epipe", cid: -1}}
 		case "shutdown-sweep":
 			c.maxConns = 3
+		case "register-fails":
+			c.maxConns = 3
+			c.inject = []inject{{name: "epctl-add", index: 1, kind: "enomem", cid: -1}}
 		}
 		return c
 	}
@@ -791,6 +794,26 @@ func runCase(w *tr.Writer, seed uint64, idx int, focus string) {
 	}
 
 	lap("steps")
+	// C04: with no callback in flight CountConnections equals the connections opened and not yet closed
+	quiet()
+	if !cfg.client && !cfg.udp && !engineDown() {
+		rec.mu.Lock()
+		down := rec.shutdown
+		rec.mu.Unlock()
+		if n := h.eng.CountConnections(); !down {
+			open := 0
+			h.mu.Lock()
+			for _, ci := range h.all {
+				if ci.opened && !ci.closed && !ci.udp {
+					open++
+				}
+			}
+			h.mu.Unlock()
+			if n != open && !engineDown() {
+				rec.Fail("count-connections", "idle", fmt.Sprintf("CountConnections %d != opened-not-closed %d", n, open))
+			}
+		}
+	}
 	// ---- drain: every open connection's accepted output must reach its peer
 	quiet()
 	if !cfg.udp && cfg.proto != "udp" && !engineDown() {
